@@ -40,6 +40,8 @@ def make_policy(pol):
         return driver.RandomPolicy(pol[1], p_step=pol[2])
     if kind == 'eager':
         return driver.EagerPolicy(pol[1])
+    if kind == 'offset':
+        return driver.OffsetPolicy(pol[1], pol[2], pol[3])
     if kind == 'script':
         return driver.ScriptPolicy(pol[1])
     raise ValueError(kind)
@@ -208,6 +210,32 @@ def select(progs, pid):
     return progs
 
 
+def offset_cfgs(prog, limit, seed):
+    """completions landing 1..6 actions after another completion (DESIGN 5.2: fire-at-step choices)"""
+    import random
+    names = [n['id'] for n in prog['nodes'] if n.get('mode', 'coro') != 'inline']
+    pairs = [(a, b) for a in names for b in names if a != b]
+    cfgs = [dict(policy=['offset', a, b, off]) for (a, b) in pairs for off in (1, 2, 3, 4, 5, 6)]
+    if len(cfgs) > limit:
+        cfgs = random.Random('off/%s/%d' % (prog['name'], seed)).sample(cfgs, limit)
+    return cfgs
+
+
+def random_programs(pid, tier, seed):
+    from harness import gen
+    quick = tier == 'quick'
+    n = 40 if quick else 400
+    feats = {'C09': ('switch', 'fail', 'retry'), 'C10': ('oneof', 'fail', 'retry'), 'C11': ('rec', 'fail', 'retry'),
+             'C12': ('retry', 'fail', 'oneof')}.get(pid)
+    out = []
+    for i in range(n):
+        kw = {'features': feats} if feats else {}
+        out.append(gen.random_program(seed, i, **kw))
+    if pid == 'C06':
+        return gen.plain_shapes(seed, 30 if quick else 300)
+    return out
+
+
 def build_jobs(pid, tier, seed):
     progs = corpus.all_programs()
     quick = tier == 'quick'
@@ -230,6 +258,13 @@ def build_jobs(pid, tier, seed):
             cfgs += base_cfgs(seed, 4 if quick else 20, 0)
         else:
             cfgs = base_cfgs(seed, 8 if quick else 60, 20 if quick else 300)
+            cfgs += offset_cfgs(p, 12 if quick else 400, seed)
+        jobs.append((p['name'], p, cfgs))
+    for p in random_programs(pid, tier, seed):
+        if pid == 'C13':
+            cfgs = cancel_cfgs(seed, 1 if quick else 3, 60, 4 if quick else 1) + base_cfgs(seed, 2, 0)
+        else:
+            cfgs = base_cfgs(seed, 4 if quick else 20, 6 if quick else 60) + offset_cfgs(p, 6 if quick else 120, seed)
         jobs.append((p['name'], p, cfgs))
     return jobs
 
